@@ -253,7 +253,7 @@ func cacheObjects(rvs []string) []*Obj {
 					m = Map{{1, 1}}
 				}
 				// the first key is cluster-scoped (empty namespace), the second namespaced
-				r = append(r, &Obj{ID: id, Kind: KPod, NS: nm - 1, NM: nm, RV: rv, Labels: m, Spec: SPod, Node: 1})
+				r = append(r, &Obj{ID: id, Kind: KPod, NS: nm - 1, NM: nm, RV: rv, Labels: m, Spec: SPod, Node: 1, Inc: id % 3})
 				id++
 			}
 		}
@@ -267,7 +267,7 @@ func cacheCorpus(c *Ctx) {
 		if lab {
 			m = Map{{1, 1}}
 		}
-		return &Obj{ID: id, Kind: KPod, NS: 1, NM: nm, RV: rv, Labels: m, Spec: SPod, Node: 1}
+		return &Obj{ID: id, Kind: KPod, NS: 1, NM: nm, RV: rv, Labels: m, Spec: SPod, Node: 1, Inc: id % 3}
 	}
 	lab := &Filt{Tag: FLabels, Map: Map{{1, 1}}}
 	nsn := &Filt{Tag: FNSName, IDs: []ID2{{1, 2}}}
@@ -416,7 +416,7 @@ func cacheWalks(c *Ctx) {
 	weird := []string{"", "x", "0", "-3", "+7", "0012", "9223372036854775807", "9223372036854775808", "1e3", " 5"}
 	id := 1
 	mkobj := func() *Obj {
-		o := &Obj{ID: id, Kind: KPod, NS: c.Rng.Intn(3), NM: 1 + c.Rng.Intn(3), Labels: labs[c.Rng.Intn(3)], Spec: SPod, Node: 1}
+		o := &Obj{ID: id, Kind: KPod, NS: c.Rng.Intn(3), NM: 1 + c.Rng.Intn(3), Labels: labs[c.Rng.Intn(3)], Spec: SPod, Node: 1, Inc: id % 3}
 		id++
 		if c.Rng.Intn(8) == 0 {
 			o.RV = weird[c.Rng.Intn(len(weird))]
